@@ -162,18 +162,22 @@ def check(ctx):
     pr_addr, pr_flag = lm.param_by_type(rrem, r"Multiaddr"), lm.param_by_type(rrem, r"^bool$")
     REC, ADDR = re.escape(R.records), re.escape(R.addresses)
 
+    OSE_PATH = "libp2p_peer_store::<memory_store::MemoryStore as store::Store>::on_swarm_event"
     # ------------------------------------------------------------------ permanence: who calls the event-producing functions with which flag
     for inner, flag_i, public, floor_auto, role, what_auto, what_pub in (
             (add_i, a_flag_i, "add_address", 3, "adder", "discovered addresses are not permanent", "explicit additions are permanent"),
             (rem_i, r_flag_i, "remove_address", 3, "remover", "automatic removal is never forced", "explicit removal is forced")):
         calls = [s for b in prog.bodies(PS) for s in b.call_sites() if strip_generics(b.call_name(s.term)) == inner.npath]
+        # a closure is part of its parent; a private helper is climbed to the API functions that reach it
+        OSE_PATH = "libp2p_peer_store::<memory_store::MemoryStore as store::Store>::on_swarm_event"
+        pub_path = "libp2p_peer_store::memory_store::MemoryStore::" + public
+        roots_of = {s: lm.entry_roots(prog, PS, s) for s in calls}
         by_body = {}
         for s in calls:
-            by_body.setdefault(s.body.npath, []).append(s)
-        pub_path = "libp2p_peer_store::memory_store::MemoryStore::" + public
-        want = {"libp2p_peer_store::<memory_store::MemoryStore as store::Store>::on_swarm_event", pub_path}
-        ctx.ob("permanence", "callers of the address " + role, set(by_body) == want, msg="callers of %s: %s" % (inner.npath.split("::")[-1], sorted(by_body)))
-        auto = [s for s in calls if s.body.npath.endswith("Store>::on_swarm_event") or "Store>::on_swarm_event::" in s.body.npath]
+            by_body.setdefault(lm.root_name(s.body.npath), []).append(s)
+        all_roots = set().union(*roots_of.values()) if roots_of else set()
+        ctx.ob("permanence", "callers of the address " + role, all_roots == {OSE_PATH, pub_path}, msg="the %s (%s) is reached from: %s" % (role, inner.npath.split("::")[-1], sorted(all_roots)))
+        auto = [s for s in calls if roots_of[s] == {OSE_PATH}]
         ctx.floor("permanence", "on_swarm_event calls of the address " + role, auto, floor_auto)
         for s in auto:
             v = arg_const(s.body.site_expr(s), flag_i)
@@ -199,13 +203,27 @@ def check(ctx):
     # PeerRecord::remove_address
     rm = [s for _, m, s in lru_uses(prog, R.addresses) if s.body is rrem and HASHLINK.get(m) == "shrink"]
     ctx.floor("permanence", "PeerRecord::remove_address removal", rm, 1, exact=True)
-    PEEK = r"hashlink::LruCache::(peek|peek_mut|get|get_mut)\(self\.%s, %s\)" % (ADDR, re.escape(pr_addr))
+    def is_lookup(x):
+        return x[0] == "call" and re.search(r"^hashlink::LruCache::(peek|peek_mut|get|get_mut)$", strip_generics(x[1])) is not None and \
+            render(x[2][0]) == "self." + R.addresses and render(x[2][1]) == pr_addr
+
+    def is_some_true(x):
+        return x[0] == "agg" and x[3] == "Some" and x[4] and x[4][0][1][0] == "const" and x[4][0][1][1] == 1
+
+    def perm_polarity(cnd, lab):
+        """'perm' / 'notperm' when the edge (cond, label) decides `the stored flag of <address> is Some(true)` (either
+        operand order, eq / ne, BinOp or PartialEq call, matches!-style discriminant + flag tests); else None."""
+        t = lm.eq_test(cnd)
+        if t and ((is_lookup(t[1]) and is_some_true(t[2])) or (is_lookup(t[2]) and is_some_true(t[1]))):
+            holds = (lab == "true") == (t[0] == "eq")
+            return "perm" if holds else "notperm"
+        if cnd[0] == "discr" and is_lookup(cnd[1]) and lab == "None":
+            return "notperm"
+        if cnd[0] == "field" and cnd[2] == "0" and cnd[1][0] == "downcast" and cnd[1][2] == "Some" and is_lookup(cnd[1][1]) and lab in ("true", "false"):
+            return "perm" if lab == "true" else "notperm"
+        return None
     forced = unnot_edges(rrem, lambda cnd, r, l: r == pr_flag and l == "true")
-    not_perm = unnot_edges(rrem, lambda cnd, r, l: bool(
-        (re.match(r"^<std::option::Option as std::cmp::PartialEq>::eq\(%s, std::option::Option::Some\{0: 1\}\)$" % PEEK, r) and l == "false") or
-        (re.match(r"^<std::option::Option as std::cmp::PartialEq>::ne\(%s, std::option::Option::Some\{0: 1\}\)$" % PEEK, r) and l == "true") or
-        (re.match(r"^discr\(%s\)$" % PEEK, r) and l == "None") or
-        (re.match(r"^%s@Some\.0$" % PEEK, r) and l == "false")))
+    not_perm = unnot_edges(rrem, lambda cnd, r, l: perm_polarity(cnd, l) == "notperm")
     ctx.ob("permanence", "floor:PeerRecord::remove_address force / permanence tests", len(forced) >= 1 and len(not_perm) >= 1, "%s:%d" % (rrem.file, rrem.line),
            "force edges %s, not-permanent edges %s" % (sorted(forced), sorted(not_perm)), nontrivial=False)
     for s in rm:
@@ -215,10 +233,7 @@ def check(ctx):
         ctx.ob("permanence", "PeerRecord::remove_address: removal needs force or a non-permanent entry", ok, s.loc(),
                "addresses.remove is reached only through `force` or the refuted `peek(address) == Some(true)`" if ok else "addresses.remove reachable for a permanent address without force")
         ctx.ob("permanence", "PeerRecord::remove_address removes the tested address", render(e[2][1]) == pr_addr, s.loc(), render(e))
-    perm = unnot_edges(rrem, lambda cnd, r, l: bool(
-        (re.match(r"^<std::option::Option as std::cmp::PartialEq>::eq\(%s, std::option::Option::Some\{0: 1\}\)$" % PEEK, r) and l == "true") or
-        (re.match(r"^<std::option::Option as std::cmp::PartialEq>::ne\(%s, std::option::Option::Some\{0: 1\}\)$" % PEEK, r) and l == "false") or
-        (re.match(r"^%s@Some\.0$" % PEEK, r) and l == "true")))
+    perm = unnot_edges(rrem, lambda cnd, r, l: perm_polarity(cnd, l) == "perm")
     not_forced = unnot_edges(rrem, lambda cnd, r, l: r == pr_flag and l == "false")
     rc = ret_consts(rrem)
     falses = [s for v, s, _ in rc if v == 0]
@@ -273,11 +288,18 @@ def check(ctx):
             ctx.ob("permanence", "PeerRecord::add_address stores (address, is_permanent)", render(e[2][1]) == CLONE % pa_addr and render(e[2][2]) == pa_flag, s.loc(), render(e)[:200])
     # automatic removal only when configured
     FLAG = "self.%s.%s" % (R.config, R.on_dial_error)
-    for s in [x for x in ose.call_sites() if strip_generics(ose.call_name(x.term)) == rem_i.npath]:
-        ctx.guarded("permanence", "on_swarm_event: automatic removal only when configured", s,
-                    lambda cnd, r, l: (r == FLAG and l == "true") or (r == "Not(%s)" % FLAG and l == "false") or
-                    (r.endswith("Config::is_remove_addr_on_dial_error(self.%s)" % R.config) and l == "true"),
-                    "config.remove_addr_on_dial_error == true")
+    FLAGS = (FLAG, "^*" + FLAG, "^" + FLAG)
+
+    def flag_pred(cnd, r, l):
+        c, lab = lm.unnot(cnd, l)
+        rr = render(c)
+        return lab == "true" and (rr in FLAGS or re.search(r"Config::is_remove_addr_on_dial_error\(\^?\*?self\.%s\)$" % re.escape(R.config), rr) is not None)
+    auto_rm = [x for b_ in prog.bodies(PS) for x in b_.call_sites() if strip_generics(b_.call_name(x.term)) == rem_i.npath and lm.entry_roots(prog, PS, x) == {OSE_PATH}]
+    ctx.floor("permanence", "automatic removals", auto_rm, 3)
+    for s in auto_rm:
+        ok = lm.guarded_up(prog, PS, s, flag_pred)
+        ctx.ob("permanence", "on_swarm_event: automatic removal only when configured", ok, s.loc(),
+               ("guard present on all paths: " if ok else "a path reaches this removal without the guard: ") + "config.remove_addr_on_dial_error == true")
 
     # ------------------------------------------------------------------ bounds
     new = ctx.body(PS, MS + r"new$")
@@ -471,7 +493,8 @@ def check(ctx):
     qm = set()
     for b in prog.bodies(PS):
         for s in lib.field_mut_calls(b, R.queue):
-            role = "emitter" if b.npath in R.emitters or b is add_i or b is rem_i else b.npath.split("::")[-1]
+            rb = lm.root_body(prog, b)
+            role = "emitter" if rb.npath in R.emitters or rb is add_i or rb is rem_i else rb.npath.split("::")[-1]
             qm.add((role, strip_generics(b.call_name(s.term)).split("::")[-1]))
     ctx.ob("queue", "event queue mutators", qm == {("emitter", "push_back"), ("poll", "pop_front")}, msg=str(sorted(qm)))
     # behaviour wrapper
